@@ -1,7 +1,7 @@
 (* C02 -- the AST says exactly what the source says.  Statements only; proofs in Syntax/ValueProofs.v and Syntax/ParserProofs.v
    (model: Syntax/Lexer.v, Syntax/Parser.v; the keyword table Gen/Keywords.v is regenerated from lexer.rs on every run). *)
 From Coq Require Import List NArith ZArith Bool.
-From SliceV Require Import Syntax.Tokens Syntax.Lexer Syntax.LexerProofs Syntax.Parser Syntax.ValueProofs Syntax.ParserProofs Syntax.ParserProofs2.
+From SliceV Require Import Syntax.Tokens Syntax.Lexer Syntax.LexerProofs Syntax.Parser Syntax.ValueProofs Syntax.ParserProofs Syntax.ParserProofs2 Syntax.ParserProofs3 Syntax.Relocate Syntax.Compose.
 Import ListNotations.
 
 (* type expressions: whatever locations the tokens carry (any layout), the tokens of a written type expression -- primitives,
@@ -19,6 +19,31 @@ Proof. exact typeref_written. Qed.
 Theorem C02_file_read_back : forall f pts, written_file f pts -> forall start,
   p_file (S (S (length pts))) (mkps pts None start []) = POk_ f (mkps [] None (last_end pts start) []).
 Proof. exact file_written. Qed.
+(* the same for files made of definitions of every kind: structs, enumerations (compact/unchecked markers, underlying type,
+   enumerators with fields, explicit -- also negative -- values or implicit ones = previous + 1, optional commas), interfaces (bases
+   with an optional trailing comma, operations with idempotent marker, parameters, no return type / one return type with tag and
+   stream marker / a tuple of two or more), custom types and type aliases.  (`written_file_all` in Syntax/ParserProofs3.v.) *)
+Theorem C02_any_file_read_back : forall f pts, written_file_all f pts -> forall start,
+  p_file (S (S (length pts))) (mkps pts None start []) = POk_ f (mkps [] None (last_end pts start) []).
+Proof. exact file_written_all. Qed.
+(* lexer and parser together: a text that is a layout of a token sequence (white space, line breaks, CRLF, comments wherever they
+   may be written) is lexed to exactly those tokens, and if they spell a file, parsing the text returns that file, no diagnostic *)
+Theorem C02_text_read_back : forall ts text a', rendered false ts text a' ->
+  map (fun p : ptok => snd (fst p)) (lexed text) = ts /\
+  forall f, written_file_all f (lexed text) -> parse_text text = POk_ f (mkps [] None (last_end (lexed text) (mkloc 1 1)) []).
+Proof. exact text_read_back. Qed.
+(* the parser never looks at locations: on token sequences of the same kinds every input -- well-formed or not -- gives the same
+   file, the same diagnostics in the same order and the same error once locations are erased (`er_file`, `rsim`, `ksim` in
+   Syntax/Relocate.v) *)
+Theorem C02_parser_ignores_locations : forall fuel s s', ksim s s' -> rsim er_file (p_file fuel s) (p_file fuel s').
+Proof. exact p_file_sim. Qed.
+(* hence, for every token sequence: all its layouts are parsed to the same syntax tree with the same diagnostics *)
+Theorem C02_parse_independent_of_layout : forall ts t1 t2 a1 a2, rendered false ts t1 a1 -> rendered false ts t2 a2 ->
+  rsim er_file (parse_text t1) (parse_text t2).
+Proof. exact parse_independent_of_layout. Qed.
+Theorem C02_any_layout_read_back : forall ts t1 t2 a1 a2 f, rendered false ts t1 a1 -> rendered false ts t2 a2 -> written_file_all f (lexed t1) ->
+  exists f' s', parse_text t2 = POk_ f' s' /\ er_file f' = er_file f /\ ps_toks s' = [] /\ ps_diags s' = [].
+Proof. exact any_layout_read_back. Qed.
 (* members (fields and parameters: prelude, tag, name, stream marker, attributed type) and member lists whatever commas are written *)
 Theorem C02_member_read_back : forall ip m pts, written_member ip m pts -> forall fuel rest le last dg, (length pts < fuel)%nat ->
   ~ next_is TkQuestion rest -> ~ next_is TkDColon rest ->
@@ -78,3 +103,7 @@ Proof. vm_compute. reflexivity. Qed.
 (* non-vacuity of the read-back theorems: the nine tokens of `module M  struct S { a: int32 }` spell a file *)
 Example C02_written_file_inhabited : exists f, written_file f ex_tokens.
 Proof. exact ex_written. Qed.
+(* and the tokens of  module M  enum E { A = -1, B(x: bool) }  interface I : J { idempotent op(a: bool) -> bool }  custom C
+   typealias Y = bool  spell a file with these four definitions *)
+Example C02_written_file_all_inhabited : exists f, written_file_all f ex_all_tokens /\ length (f_defs f) = 4.
+Proof. exact ex_written_all. Qed.
